@@ -15,8 +15,10 @@ Proof. intros. eapply match_field_skip; eauto. Qed.
 Print Assumptions C06_skip_wins.
 
 (** Otherwise the first :conv naming the path decides: the field takes the
-    converter's result (possibly through an opted-in String()/conversion) or is
-    reported `no match` — never the default name match. The path comparison is
+    converter's result (possibly through an opted-in String()/conversion) — the
+    converter applied to the source path resolved from the root operand, which yields
+    no error of its own, fitted to the parameter type, and addressable where it is
+    passed as &arg — or is reported `no match` — never the default name match. The path comparison is
     case-sensitive whatever the case rule (ident_match _ _ true). *)
 Theorem C06_conv_honoured :
   forall d o mpos fuel lhs rhs args c a ev,
@@ -24,12 +26,16 @@ Theorem C06_conv_honoured :
     find (fun c => ident_match (fc_dst c) (matcher_expr lhs) true) (o_conv o) = Some c ->
     match_field d o mpos fuel lhs rhs args = (Ok a, ev) ->
     a = Some (ANoMatch lhs) \/
-    exists arg n, a = Some (ASimple lhs (RNode n) (fc_err c)) /\ cast_shape d o (NConv arg c) (expr_type lhs) n.
+    exists src arg n,
+      resolve_expr d (fc_src c) (node_root rhs) = Some src /\ returns_error src = false /\
+      conv_arg_ok d o c src arg /\
+      a = Some (ASimple lhs (RNode n) (fc_err c)) /\ cast_shape d o (NConv arg c) (expr_type lhs) n.
 Proof.
   intros d o mpos fuel lhs rhs args c a ev Hs Hc H.
   rewrite (match_field_conv d o mpos fuel lhs rhs args c Hs Hc) in H.
   apply rbind_ok in H as (a0 & e1 & e2 & H0 & H & _). apply ret_ok in H as [<- _].
-  destruct (create_with_converter_shape d o mpos _ _ _ _ _ H0) as [->|(arg & n & -> & Hn)]; [now left|right; eauto].
+  destruct (create_with_converter_shape d o mpos _ _ _ _ _ H0) as [->|(src & arg & n & Hr & He & Ha & -> & Hn)]; [now left|right].
+  exists src, arg, n. auto.
 Qed.
 Print Assumptions C06_conv_honoured.
 
